@@ -66,10 +66,13 @@ def sv_rejects_initial_state(n):
     return fn
 
 
-def mps_bad_atoms(n, d, reorder):
+def mps_bad_atoms(n, d, reorder, min_good=0):
     def fn(env):
         T = env.torch
         bad = [env.boolean(f"bad_{i}") for i in range(n)]
+        if min_good:
+            # (used by C03, which is about the ordering, not about how few atoms emu-mps can start with)
+            env.assume(sum(1 for b in bad if not b) >= min_good, f"at least {min_good} well-prepared atoms")
         perm = env.choice("perm", all_perms(n)) if reorder else list(range(n))
         data, sym = make_data(env, n, 1, bad_atoms=bad, prep_error=0.1, last_time=40)
         eig = ["r", "g"] if d == 2 else ["r", "g", "x"]
